@@ -145,6 +145,29 @@ Alphabet ==
          \cup RemoveOps({Tg(1, "eq", 1), T("le", 1), Fd(1, "exists", 0)}, {N})
          \cup CountOps({T("ge", 1)}, {N})
          \cup {[op |-> "get", q |-> Me("eq", 2), m |-> N]}
+    [] Alpha = "remove" ->    \* C02: removals by every kind of query and filter, then reads and inserts
+         InsertOps({P1, P2, P3, P4, P6}, {N})
+         \cup RemoveOps({Tg(1, "eq", 1), Not(Tg(1, "eq", 1)), Fd(1, "exists", 0), Not(Fd(1, "eq", 1)), Fd(1, "lt", 2), T("le", 1), T("gt", 1),
+                         Me("eq", 2), And(Not(Fd(1, "eq", 1)), Tg(1, "exists", 0)), Or(Tg(1, "eq", 2), Fd(2, "eq", 2)), T("noop", 0), Fd(1, "eq", N)}, {N, 1, 4})
+         \cup {[op |-> "drop_measurement", m |-> m] : m \in {1, 2, 4}} \cup {Op("remove_all")}
+         \cup CountOps({T("ge", 1)}, {N}) \cup {[op |-> "all", m |-> N, sorted |-> 0]}
+    [] Alpha = "meas" ->      \* C10: the same operation through db.measurement(name) and through the database
+         InsertOps({P1, P3, P6}, {N}) \cup {[op |-> "insert", p |-> P4, m |-> 1, compact |-> 0, via |-> "handle"]}
+         \cup {[op |-> "remove", q |-> q, m |-> m, via |-> v] : q \in {Tg(1, "exists", 0), T("le", 1), Not(Fd(1, "eq", 1))}, m \in {1, 2, 4}, v \in {"handle", "db"}}
+         \cup {[op |-> "drop_measurement", m |-> m, via |-> v] : m \in {1, 2}, v \in {"handle", "db"}}
+         \cup {[op |-> "update", q |-> q, m |-> m, u |-> u, fail |-> 0, via |-> "handle"] :
+                q \in {T("noop", 0), Tg(1, "exists", 0)}, m \in {1, 2}, u \in {[U0 EXCEPT !.mk = 1, !.mv = 2], [U0 EXCEPT !.fdk = 1, !.fdv = <<1, M>>]}}
+         \cup {[op |-> "update_all", m |-> m, u |-> [U0 EXCEPT !.tgk = 1, !.tgv = <<2, M>>], fail |-> 0, via |-> "handle"] : m \in {1, 2}}
+         \cup {[op |-> o, m |-> m, via |-> "handle"] : o \in {"get_tag_keys", "get_field_keys", "get_timestamps", "len"}, m \in {1, 2}}
+         \cup {[op |-> "count", q |-> T("noop", 0), m |-> m, via |-> "handle"] : m \in {1, 2, 4}}
+    [] Alpha = "fail" ->      \* C11: every raising call, then continuations
+         InsertOps({P1, P3, P4}, {N})
+         \cup {[op |-> "insert_multiple", ps |-> ps, m |-> N, bad |-> 1] : ps \in {<<>>, <<P2>>, <<P5, P3>>, <<P2, P4>>}}
+         \cup {[op |-> "update", q |-> q, m |-> N, u |-> u, fail |-> k] :
+                q \in {T("noop", 0), Tg(1, "exists", 0)}, u \in {[U0 EXCEPT !.tgk = 1, !.tgv = <<2, M>>], [U0 EXCEPT !.mk = 1, !.mv = 2]}, k \in {1, 2, 0 - 1, 0 - 2}}
+         \cup {[op |-> "update", q |-> T("noop", 0), m |-> N, u |-> U0, fail |-> 0], [op |-> "update_all", u |-> U0, fail |-> 0]}
+         \cup {[op |-> "update_all", u |-> [U0 EXCEPT !.utg = <<1>>], fail |-> k] : k \in {1, 2}}
+         \cup CountOps({T("noop", 0), Tg(1, "exists", 0)}, {N}) \cup {Op("reindex"), [op |-> "all", m |-> N, sorted |-> 1]}
     [] OTHER -> {}
 
 Do(a) == /\ (a.op \in {"insert"} => Len(store) < MaxLen)
